@@ -808,6 +808,27 @@ func cliSearch(cf *lib.CaseFile, rng *lib.Rng, f lib.Flags) {
 		}
 		cases[i] = c
 	}
+	// deterministic part of every run: every generated input file read in full, in every eager format, plus a count and
+	// the LIMIT / ORDER BY expression families over it
+	for _, file := range []string{"e.csv", "j.json", "k.json", "k2.json", "ev.csv", "kk.csv", "small.csv", "empty.csv", "empty.json", "l.lines"} {
+		for _, q := range []string{"SELECT * FROM " + file + " x", "SELECT COUNT(*) FROM " + file + " x"} {
+			for _, format := range []string{"json", "csv", "batch_table"} {
+				if strings.HasPrefix(q, "SELECT COUNT") && format != "json" {
+					continue
+				}
+				cases = append(cases, cliCase{kind: "deterministic", query: q, args: []string{q, "-o", format}})
+			}
+		}
+	}
+	for _, lim := range []string{"x.i", "nosuchcolumn", "1 + 'a'", "1.5", "-1", "NULL", "nosuchfn(2)", "9223372036854775807", "(SELECT r.i FROM range(start=>1, end=>2) r)"} {
+		for _, format := range []string{"json", "batch_table"} {
+			q := "SELECT * FROM small.csv x LIMIT " + lim
+			cases = append(cases, cliCase{kind: "deterministic", query: q, args: []string{q, "-o", format}})
+			q = "SELECT * FROM small.csv x ORDER BY " + lim + " LIMIT 2"
+			cases = append(cases, cliCase{kind: "deterministic", query: q, args: []string{q, "-o", format}})
+		}
+	}
+	n = len(cases)
 	results := make([]cliResult, n)
 	var wg sync.WaitGroup
 	sem := make(chan struct{}, 8)
